@@ -748,6 +748,26 @@ class Interp:
         return GenV(node, env)
 
     def e_DictComp(self, node, env):
+        if len(node.generators) == 1 and not node.generators[0].ifs and isinstance(node.generators[0].target, ast.Name):
+            it = self.eval(node.generators[0].iter, env)
+            if isinstance(it, self.lib.RangeV) and not (isinstance(it.lo, int) and isinstance(it.hi, int)) and it.step == 1:
+                from .values import CompDictV
+
+                tname = node.generators[0].target.id
+
+                def mk(expr):
+                    def f(i):
+                        cenv = Env(parent=env)
+                        cenv.vars[tname] = i
+                        return self.eval(expr, cenv)
+
+                    return f
+
+                return CompDictV(mk(node.key), mk(node.value), it.lo, it.hi)
+            return self._dictcomp_from(node, env, it)
+        return self._dictcomp_from(node, env, None)
+
+    def _dictcomp_from(self, node, env, first_iter):
         d = DictV()
         pair = ast.Tuple(elts=[node.key, node.value], ctx=ast.Load())
         ast.copy_location(pair, node)
@@ -825,6 +845,9 @@ class Interp:
 
     # ------------------------------------------------------------------ truthiness
     def truthy(self, v, node=None):
+        from .values import deref
+
+        v = deref(v)
         if v is None or isinstance(v, (bool, int, float, str)):
             return bool(v)
         if isinstance(v, SBool):
